@@ -2,6 +2,7 @@ import AslProofs.IniHistory
 import AslProofs.IniNames
 import AslProofs.CsvQ
 import AslProofs.CsvTable
+import AslProofs.CsvTyped
 import AslProps.C18Spec
 /-!
 # C18 — IniFile and TabularDataFile persist exactly what was set or written: property theorems
@@ -328,6 +329,34 @@ example : CellWFsemi (.num [49, 46, 53]) ∧ CellWFsemi (.str [120, 59, 121]) :=
 example : ColOK [120] ∧ CellWF (.str [97, 44, 34, 98]) := by
   refine ⟨⟨?_, 120, [], rfl, by decide⟩, by decide, by decide, by decide, by decide⟩
   intro c hc; simp at hc; subst hc; decide
+
+/-- **csv_typed_row.**  Columns read with `readAs(types)`.  For every separator other than the quote (`setSeparator`),
+    the writer's decimal symbol `wdec` either `.` or the one the reader uses (`setDecimal`), every string of type
+    characters and every non-empty row with one cell per type character — in an `s` column **any** string without
+    NUL / line break (separators, quotes, outer blanks, empty, and strings that spell numbers, which the untyped
+    reader cannot tell from numbers), in an `n` column any number text free of the reader's decimal symbol, anything
+    in a column whose character matches no case — parsing the written row and typing it gives back the strings byte
+    for byte and `myatof` of the number texts as written (exact value: `csv_number_exact_Q`); cells of unmatched
+    columns are dropped, as the switch has no default.  (`i` columns: model and correspondence check only.) -/
+theorem csv_typed_row (sep : UInt8) (hsep : sep ≠ 34) (wdec rdec : UInt8) (hd : wdec = 46 ∨ wdec = rdec)
+    (types : List Csv.ColType) (c : Cell) (t : List Cell)
+    (hok : ∀ x ∈ c :: t, CellOK sep (Csv.localize wdec x))
+    (hf : AslProofs.Csv.FitsAll rdec types (c :: t)) :
+    Csv.typedRow rdec types (parseRow sep (Csv.rowTextG sep wdec (c :: t))) =
+      (types.zip (c :: t)).filterMap fun p => AslProofs.Csv.typedSpec p.1 p.2 :=
+  AslProofs.Csv.typed_row_roundtrip sep hsep wdec rdec hd types c t hok hf
+
+/-- the row `"007" ; 1,5 ; "x"` read as `s n _` after `setSeparator(';')`, `setDecimal(',')`: the string `007` stays a
+    string, `1.5` is written `1,5` and read as the number 1.5, the third cell is dropped -/
+example : Csv.typedRow 44 [.str, .num, .skip] (parseRow 59 (Csv.rowTextG 59 44 [.str [48, 48, 55], .num [49, 46, 53], .str [120]]))
+    = [.str [48, 48, 55], .num ⟨false, 15, -1⟩] := by decide
+
+example : AslProofs.Csv.FitsAll 44 [.str, .num, .skip] [.str [48, 48, 55], .num [49, 46, 53], .str [120]] ∧
+    ∀ x ∈ [Cell.str [48, 48, 55], .num [49, 46, 53], .str [120]], CellOK 59 (Csv.localize 44 x) := by
+  refine ⟨⟨trivial, Or.inl (by decide), trivial, trivial⟩, ?_⟩
+  intro x hx
+  simp only [List.mem_cons, List.not_mem_nil, or_false] at hx
+  rcases hx with e | e | e <;> subst e <;> simp [Csv.localize, CellOK]
 
 /-- **csv_number_exact_Q.**  Every number text `[-]digits[.digits][(e|E)[+|-]digits]` with at most 18 mantissa digits
     and at most 9 exponent digits (in particular every `%.15g` output) is recognised as a number by `myisnumber`;
